@@ -370,6 +370,12 @@ def run(ctx, model_ok):
                 rep.notes.append(f"case {c['id']} stuck: {e}")
                 rep.distribution["stuck"] += 1
         _schema_semantics(ctx, rep, base)
+        # an existing table whose pointer is lost, created again while the metadata listing fails: never a second initialisation
+        from . import c10
+        before_n = len(rep.violations)
+        c10._listing_fault(ctx, rep)
+        for v_ in rep.violations[before_n:]:
+            v_["signature"] = v_["signature"].replace("C10:", "C18:")
     finally:
         shutil.rmtree(base, ignore_errors=True)
     return rep
